@@ -880,15 +880,14 @@ fn record_bus_directed(out: &mut TraceOut) -> Value {
     for order in 0..2 {
         out.balance();
         let (a, b) = if order == 0 { (3u16, 4u16) } else { (4, 3) };
+        // both signs are put into the pixel-receiving state first (the offset-0 configuration chunk of the second
+        // restarts the first one's page, harmlessly); then 270 chunks of 255 bytes at non-zero offsets reach both
         let mut v = cfg(a);
-        for i in 0..200u32 {
+        v.extend(cfg(b));
+        for i in 0..270u32 {
             v.push(sd(if i % 2 == 0 { 16 } else { 32 }, &[0xCD; 255]));
         }
-        v.extend(cfg(b));
-        for _ in 0..70 {
-            v.push(sd(16, &[0xEF; 255]));
-        }
-        v.push(Message::DataChunksSent(ChunkCount(70)));
+        v.push(Message::DataChunksSent(ChunkCount(270)));
         v.push(Message::QueryState(Address(a)));
         v.push(Message::QueryState(Address(b)));
         steps += run_bus_script(out, &[(3, PageFlipStyle::Manual), (4, PageFlipStyle::Automatic)], v);
